@@ -1,21 +1,269 @@
-"""Tables regenerated from /repo source on every run (DESIGN.md §3.3).
+#!/usr/bin/env python3
+"""Tables regenerated from /repo source (DESIGN.md §3.3).
 
-regenerate(name, lean_dir) -> status string; raises if the extractor cannot parse its target
-(the committed table is then used and the run relies on K alone)."""
+`regenerate(name, lean_dir) -> status` extracts one table-shaped piece of Rust code with
+deliberately dumb regular expressions and rewrites `lean_dir/Harper/Tables/<name>.lean`.
+The theorems are then rebuilt against what the code says *now*.
+
+If the extractor cannot parse its target it raises `TableError`; `check` then falls back to the
+committed table and says so in the evidence (the run relies on the correspondence step alone).
+
+Every generator is registered in `GENERATORS`; other slices add theirs next to `NumberSuffix`.
+"""
 import os
 import re
 
-REPO = "/repo"
+REPO = os.environ.get("VERIF_REPO", "/repo")
 
 
-def _write_if_changed(path, content):
-    old = open(path).read() if os.path.exists(path) else None
-    if old == content:
-        return "regenerated (unchanged)"
-    with open(path, "w") as f:
-        f.write(content)
-    return "regenerated (CHANGED)" if old is not None else "regenerated (new)"
+class TableError(Exception):
+    pass
 
+
+def _read(rel):
+    p = os.path.join(REPO, rel)
+    try:
+        with open(p, encoding="utf8") as f:
+            return f.read()
+    except OSError as e:
+        raise TableError("cannot read %s: %s" % (p, e))
+
+
+def _strip_rust_comments(src):
+    """remove // line comments and /* */ block comments; char literals like '/' are kept intact
+    well enough for the files handled here (no `'/'` followed by `/`)."""
+    src = re.sub(r"/\*.*?\*/", " ", src, flags=re.S)
+    return re.sub(r"//[^\n]*", "", src)
+
+
+def _fn_body(src, name):
+    """text between the braces of `fn <name>(…) … { … }` (brace matching; char literals skipped)."""
+    m = re.search(r"\bfn\s+%s\s*(?:<[^>]*>)?\s*\(" % re.escape(name), src)
+    if not m:
+        raise TableError("fn %s not found" % name)
+    i = src.find("{", m.end())
+    if i < 0:
+        raise TableError("fn %s has no body" % name)
+    depth, j, n = 0, i, len(src)
+    while j < n:
+        c = src[j]
+        if c == "'" and j + 2 < n and src[j + 2] == "'":  # 'x'
+            j += 3
+            continue
+        if c == "'" and j + 3 < n and src[j + 1] == "\\" and src[j + 3] == "'":  # '\n'
+            j += 4
+            continue
+        if c == "{":
+            depth += 1
+        elif c == "}":
+            depth -= 1
+            if depth == 0:
+                return src[i + 1:j]
+        j += 1
+    raise TableError("fn %s: unbalanced braces" % name)
+
+
+def _lean_char(c):
+    if c in ("'", "\\"):
+        return "'\\%s'" % c
+    if not (32 < ord(c) < 127):
+        return "(Char.ofNat %d)" % ord(c)
+    return "'%s'" % c
+
+
+# ---------------------------------------------------------------------------------------------
+# NumberSuffix  (harper-core/src/number.rs)
+# ---------------------------------------------------------------------------------------------
+
+_SUFFIX_VARIANTS = {"Th": "th", "St": "st", "Nd": "nd", "Rd": "rd"}
+
+
+def _suffix(name, where):
+    if name not in _SUFFIX_VARIANTS:
+        raise TableError("%s: unknown NumberSuffix variant %r" % (where, name))
+    return "Suffix." + _SUFFIX_VARIANTS[name]
+
+
+def _opt_suffix(expr, where):
+    """`Some(Self::Th)` / `Some(NumberSuffix::Th)` / `None` → Lean `Option Suffix` term"""
+    expr = expr.strip()
+    if expr == "None":
+        return "none"
+    m = re.fullmatch(r"Some\(\s*(?:Self|NumberSuffix)::(\w+)\s*\)", expr)
+    if not m:
+        raise TableError("%s: cannot read result %r" % (where, expr))
+    return "some " + _suffix(m.group(1), where)
+
+
+def _int_patterns(pat, where):
+    """`3`, `0 | 4`, `4..=9`, `4..10` → list of naturals"""
+    out = []
+    for alt in pat.split("|"):
+        alt = alt.strip()
+        m = re.fullmatch(r"(\d+)", alt)
+        if m:
+            out.append(int(m.group(1)))
+            continue
+        m = re.fullmatch(r"(\d+)\s*\.\.=\s*(\d+)", alt)
+        if m:
+            out += list(range(int(m.group(1)), int(m.group(2)) + 1))
+            continue
+        m = re.fullmatch(r"(\d+)\s*\.\.\s*(\d+)", alt)
+        if m:
+            out += list(range(int(m.group(1)), int(m.group(2))))
+            continue
+        raise TableError("%s: cannot read pattern %r" % (where, alt))
+    return out
+
+
+def extract_number_suffix():
+    src = _strip_rust_comments(_read("harper-core/src/number.rs"))
+    # enum NumberSuffix { Th, St, Nd, Rd } (attributes such as #[default] ignored)
+    m = re.search(r"\benum\s+NumberSuffix\s*\{(.*?)\}", src, re.S)
+    if not m:
+        raise TableError("enum NumberSuffix not found")
+    variants = re.findall(r"\b([A-Z]\w*)\b\s*(?:,|$)", re.sub(r"#\[[^\]]*\]", "", m.group(1)).strip())
+    if sorted(variants) != sorted(_SUFFIX_VARIANTS):
+        raise TableError("enum NumberSuffix has variants %r, expected Th/St/Nd/Rd" % variants)
+
+    # --- correct_suffix_for ---
+    body = _fn_body(src, "correct_suffix_for")
+    # the integer conversion the model assumes: `let integer = number as u64;`
+    m = re.search(r"let\s+integer\s*=\s*number\s+as\s+(\w+)\s*;", body)
+    if not m:
+        raise TableError("correct_suffix_for: `let integer = number as <ty>;` not found")
+    int_ty = m.group(1)
+    # the teens arm: `if let 11..=13 = integer % 100 { return Some(Self::Th); }`
+    m = re.search(
+        r"if\s+let\s+(\d+)\s*\.\.=\s*(\d+)\s*=\s*integer\s*%\s*(\d+)\s*\{\s*return\s+([^;]+);\s*\}", body)
+    if not m:
+        raise TableError("correct_suffix_for: teens arm `if let a..=b = integer % 100 {return …;}` not found")
+    teens_lo, teens_hi, teens_mod = int(m.group(1)), int(m.group(2)), int(m.group(3))
+    teens_res = _opt_suffix(m.group(4), "teens arm")
+    after = body[m.end():]
+    m = re.search(r"match\s+integer\s*%\s*(\d+)\s*\{(.*?)\}", after, re.S)
+    if not m:
+        raise TableError("correct_suffix_for: `match integer % 10 { … }` not found")
+    digit_mod = int(m.group(1))
+    arms, default = [], None
+    for arm in m.group(2).split(","):
+        arm = arm.strip()
+        if not arm:
+            continue
+        am = re.fullmatch(r"(.+?)=>\s*(.+)", arm, re.S)
+        if not am:
+            raise TableError("correct_suffix_for: cannot read arm %r" % arm)
+        pat, res = am.group(1).strip(), am.group(2).strip()
+        if pat == "_":
+            if default is not None:
+                raise TableError("correct_suffix_for: two default arms")
+            default = _opt_suffix(res, "default arm")
+            continue
+        if default is not None:
+            continue  # arms after `_` are unreachable
+        r = _opt_suffix(res, "arm " + pat)
+        for k in _int_patterns(pat, "arm " + pat):
+            arms.append((k, r))
+    if default is None:
+        raise TableError("correct_suffix_for: no default arm")
+    if not arms:
+        raise TableError("correct_suffix_for: no arms")
+
+    # --- to_chars ---
+    body = _fn_body(src, "to_chars")
+    to_rows = []
+    for m in re.finditer(r"(?:NumberSuffix|Self)::(\w+)\s*=>\s*vec!\[([^\]]*)\]", body):
+        chars = re.findall(r"'(\\?.)'", m.group(2))
+        if not chars or len(chars) != len([x for x in m.group(2).split(",") if x.strip()]):
+            raise TableError("to_chars: cannot read row %r" % m.group(0))
+        to_rows.append((_suffix(m.group(1), "to_chars"), [c[-1] for c in chars]))
+    if len(to_rows) != body.count("=>") or not to_rows:
+        raise TableError("to_chars: %d rows read, %d arms present" % (len(to_rows), body.count("=>")))
+    if sorted(s for s, _ in to_rows) != sorted("Suffix." + v for v in _SUFFIX_VARIANTS.values()):
+        raise TableError("to_chars: rows do not cover each variant exactly once")
+
+    # --- from_chars ---
+    body = _fn_body(src, "from_chars")
+    m = re.search(r"if\s+chars\.len\(\)\s*<\s*(\d+)\s*\{\s*return\s+None\s*;\s*\}", body)
+    if not m:
+        raise TableError("from_chars: length guard not found")
+    min_len = int(m.group(1))
+    m = re.search(r"match\s*\(\s*chars\[0\]\s*,\s*chars\[1\]\s*\)\s*\{(.*)\}", body, re.S)
+    if not m:
+        raise TableError("from_chars: `match (chars[0], chars[1])` not found")
+    mbody = m.group(1)
+    from_rows = []
+    for m in re.finditer(r"\(\s*'(\\?.)'\s*,\s*'(\\?.)'\s*\)\s*=>\s*([^,]+),", mbody):
+        r = _opt_suffix(m.group(3), "from_chars row")
+        if r == "none":
+            raise TableError("from_chars: explicit None row")
+        from_rows.append((m.group(1)[-1], m.group(2)[-1], r[len("some "):]))
+    dm = re.search(r"\b_\s*=>\s*([^,}]+)", mbody)
+    if not dm or _opt_suffix(dm.group(1), "from_chars default") != "none":
+        raise TableError("from_chars: default arm is not `_ => None`")
+    if len(from_rows) + 1 != mbody.count("=>"):
+        raise TableError("from_chars: %d rows read, %d arms present" % (len(from_rows), mbody.count("=>")))
+
+    return {
+        "int_ty": int_ty, "teens_lo": teens_lo, "teens_hi": teens_hi, "teens_mod": teens_mod,
+        "teens_res": teens_res, "digit_mod": digit_mod, "arms": arms, "default": default,
+        "to_rows": to_rows, "min_len": min_len, "from_rows": from_rows,
+    }
+
+
+def render_number_suffix(t):
+    L = []
+    L.append("import Harper.Basic.Suffix")
+    L.append("/-!")
+    L.append("# Table: `NumberSuffix` (harper-core/src/number.rs)")
+    L.append("")
+    L.append("GENERATED by `tools/tables.py` (`regenerate \"NumberSuffix\"`) from the Rust source on every")
+    L.append("`./check` run — do not edit. Imports only `Harper.Basic.Suffix` (the `Suffix` type, checked against")
+    L.append("`enum NumberSuffix { Th, St, Nd, Rd }` by the extractor). The committed copy is what the extractor produces on")
+    L.append("the unchanged tree; it is used as a fallback when the extractor cannot parse its target.")
+    L.append("-/")
+    L.append("namespace Harper.Tables.NumberSuffix")
+    L.append("open Harper")
+    L.append("")
+    L.append("/-- `let integer = number as %s;` -/" % t["int_ty"])
+    L.append("def integerType : String := \"%s\"" % t["int_ty"])
+    L.append("")
+    L.append("/-- `if let %d..=%d = integer %% %d { return … }` -/" % (t["teens_lo"], t["teens_hi"], t["teens_mod"]))
+    L.append("def teensMod : Nat := %d" % t["teens_mod"])
+    L.append("def teensLo : Nat := %d" % t["teens_lo"])
+    L.append("def teensHi : Nat := %d" % t["teens_hi"])
+    L.append("def teensResult : Option Suffix := %s" % t["teens_res"])
+    L.append("")
+    L.append("/-- `match integer %% %d { k => … }`, in source order (or-patterns and ranges expanded) -/" % t["digit_mod"])
+    L.append("def lastDigitMod : Nat := %d" % t["digit_mod"])
+    L.append("def lastDigitArms : List (Nat × Option Suffix) := [")
+    L.append(",\n".join("  (%d, %s)" % (k, r) for k, r in t["arms"]))
+    L.append("]")
+    L.append("/-- the `_ =>` arm -/")
+    L.append("def lastDigitDefault : Option Suffix := %s" % t["default"])
+    L.append("")
+    L.append("/-- `to_chars` -/")
+    L.append("def toCharsRows : List (Suffix × List Char) := [")
+    L.append(",\n".join("  (%s, [%s])" % (s, ", ".join(_lean_char(c) for c in cs)) for s, cs in t["to_rows"]))
+    L.append("]")
+    L.append("")
+    L.append("/-- `from_chars`: `if chars.len() < %d { return None }`, then the rows in source order; `_ => None` -/" % t["min_len"])
+    L.append("def fromCharsMinLen : Nat := %d" % t["min_len"])
+    L.append("def fromCharsRows : List (Char × Char × Suffix) := [")
+    L.append(",\n".join("  (%s, %s, %s)" % (_lean_char(a), _lean_char(b), s) for a, b, s in t["from_rows"]))
+    L.append("]")
+    L.append("")
+    L.append("end Harper.Tables.NumberSuffix")
+    return "\n".join(L) + "\n"
+
+
+def _gen_number_suffix():
+    return render_number_suffix(extract_number_suffix())
+
+
+# ---------------------------------------------------------------------------------------------
+# Punct, LexerOrder  (harper-core/src/punctuation.rs, currency.rs, lexing/mod.rs)
+# ---------------------------------------------------------------------------------------------
 
 def _char_literal(s):
     """Rust char literal body -> code point"""
@@ -26,27 +274,27 @@ def _char_literal(s):
     if m:
         return int(m.group(1), 16)
     if len(s) != 1:
-        raise ValueError("char literal %r" % s)
+        raise TableError("char literal %r" % s)
     return ord(s)
 
 
-def punct(lean_dir):
+def _gen_punct():
     src = open(os.path.join(REPO, "harper-core/src/punctuation.rs")).read()
     m = re.search(r"pub fn from_char\(c: char\) -> Option<Punctuation> \{\s*let punct = match c \{(.*?)\n\s*_ =>", src, re.S)
     if not m:
-        raise ValueError("Punctuation::from_char not found")
+        raise TableError("Punctuation::from_char not found")
     rows = re.findall(r"'((?:\\.|[^'\\])+?)' => Punctuation::(\w+),", m.group(1))
     if len(rows) < 20:
-        raise ValueError("too few punctuation rows")
+        raise TableError("too few punctuation rows")
     cur = open(os.path.join(REPO, "harper-core/src/currency.rs")).read()
     m2 = re.search(r"pub fn from_char\(c: char\) -> Option<Self> \{\s*let cur = match c \{(.*?)_ => return None", cur, re.S)
     if not m2:
-        raise ValueError("Currency::from_char not found")
+        raise TableError("Currency::from_char not found")
     crow = re.findall(r"'((?:\\.|[^'\\])+?)' => Self::(\w+),", m2.group(1))
     lex = open(os.path.join(REPO, "harper-core/src/lexing/mod.rs")).read()
     m3 = re.search(r"fn lex_quote.*?if (c == .*?) \{", lex, re.S)
     if not m3:
-        raise ValueError("lex_quote not found")
+        raise TableError("lex_quote not found")
     quotes = re.findall(r"c == '((?:\\.|[^'\\])+?)'", m3.group(1))
     out = ["import Harper.Basic.Token",
            "/-! GENERATED by tools/tables.py from harper-core/src/{punctuation,currency}.rs and lexing/mod.rs:lex_quote — do not edit. -/",
@@ -59,14 +307,14 @@ def punct(lean_dir):
             "/-- characters `lex_quote` accepts -/",
             "def quoteChars : List Nat := [" + ", ".join(str(_char_literal(c)) for c in quotes) + "]", "",
             "end Harper.Tables", ""]
-    return _write_if_changed(os.path.join(lean_dir, "Harper/Tables/Punct.lean"), "\n".join(out))
+    return "\n".join(out)
 
 
-def lexer_order(lean_dir):
+def _gen_lexer_order():
     lex = open(os.path.join(REPO, "harper-core/src/lexing/mod.rs")).read()
     m = re.search(r"let lexers = \[(.*?)\];", lex, re.S)
     if not m:
-        raise ValueError("lexers array not found")
+        raise TableError("lexers array not found")
     body = re.sub(r"//[^\n]*", "", m.group(1))
     names = [n.strip() for n in body.split(",") if n.strip()]
     out = ["import Harper.Basic.LexerName",
@@ -75,19 +323,65 @@ def lexer_order(lean_dir):
            "/-- the order in which `lex_token` tries its lexers -/",
            "def lexerOrder : List LexerName := [" + ", ".join('.%s' % n for n in names) + "]", "",
            "end Harper.Tables", ""]
-    return _write_if_changed(os.path.join(lean_dir, "Harper/Tables/LexerOrder.lean"), "\n".join(out))
+    return "\n".join(out)
 
 
-GENERATORS = {"Punct": punct, "LexerOrder": lexer_order}
+
+GENERATORS = {
+    "NumberSuffix": _gen_number_suffix,
+    "Punct": _gen_punct,
+    "LexerOrder": _gen_lexer_order,
+}
+
+
+def _committed_path(name):
+    return os.path.join(os.path.dirname(os.path.abspath(__file__)), "committed_tables", name + ".lean")
+
+
+def _write(path, text):
+    os.makedirs(os.path.dirname(path), exist_ok=True)
+    tmp = path + ".tmp"
+    with open(tmp, "w", encoding="utf8") as f:
+        f.write(text)
+    os.replace(tmp, path)
+
+
+def _slurp(path):
+    if not os.path.exists(path):
+        return None
+    with open(path, encoding="utf8") as f:
+        return f.read()
 
 
 def regenerate(name, lean_dir):
+    """Rewrite `lean_dir/Harper/Tables/<name>.lean` from the source; return a status string
+    ("regenerated (unchanged)" / "regenerated (CHANGED)": compared with the committed table
+    `tools/committed_tables/<name>.lean`, i.e. with what the unchanged tree produces).
+    Raises (TableError or other) when the target cannot be parsed; the committed table is then
+    put back in place so that a table from an earlier, different tree is not silently reused."""
     if name not in GENERATORS:
-        raise ValueError("unknown table " + name)
-    return GENERATORS[name](lean_dir)
+        raise TableError("no generator for table %r" % name)
+    path = os.path.join(lean_dir, "Harper", "Tables", name + ".lean")
+    committed = _slurp(_committed_path(name))
+    try:
+        text = GENERATORS[name]()
+    except Exception:
+        if committed is not None and _slurp(path) != committed:
+            _write(path, committed)
+        raise
+    if _slurp(path) != text:  # do not touch the file (and lake's cache) when nothing changed
+        _write(path, text)
+    if committed is None:
+        return "regenerated (no committed copy to compare with)"
+    return "regenerated (unchanged)" if text == committed else "regenerated (CHANGED)"
 
 
 if __name__ == "__main__":
     import sys
-    for n in sys.argv[1:] or GENERATORS:
-        print(n, regenerate(n, os.path.join(os.path.dirname(os.path.dirname(os.path.abspath(__file__))), "lean")))
+    root = os.path.dirname(os.path.dirname(os.path.abspath(__file__)))
+    args = [a for a in sys.argv[1:] if a != "--commit"]
+    for n in args or list(GENERATORS):
+        print(n, regenerate(n, os.path.join(root, "lean")))
+        if "--commit" in sys.argv:  # maintainers only: record the current output as the committed table
+            _write(_committed_path(n), _slurp(os.path.join(root, "lean", "Harper", "Tables", n + ".lean")))
+            print(n, "committed copy updated")
